@@ -449,7 +449,7 @@ fn attack(w: &mut World, actor: &str, tx: &Transaction, i: usize, sat: &WorldSat
     adv.ecdsa.retain(|_, s| visible(&s.to_vec()));
     adv.tap_key.retain(|_, s| visible(&s.to_vec()));
     adv.tap_script.retain(|_, s| visible(&s.to_vec()));
-    adv.preimages = env.uni.hashes.iter().map(|h| h.id).collect();
+    adv.preimages = env.uni.hashes.iter().filter(|h| h.usable).map(|h| h.id).collect();
     let world = ref_world(&adv, true);
     let mut candidates: Vec<(Vec<Vec<u8>>, ScriptBuf, &'static str)> = vec![];
     // (a) everything R3 can build from the adversary's assets
